@@ -551,6 +551,14 @@ Proof.
   apply hinv_alloc3; exact Hinv.
 Qed.
 
+(* which list index a pop key denotes *)
+Definition pop_key_rel (k : popkey) (l : list obj) (d : od Z) (ix : Z) : Prop :=
+  match k with
+  | PNone => ix = zlen l - 1
+  | PIdx j => ix = j
+  | PName n => od_get d n = Some ix
+  end.
+
 Lemma noc_pop_spec : forall h i k h' r,
   hinv h -> noc_pop h i k = (h', r) ->
   hinv h'
@@ -558,7 +566,7 @@ Lemma noc_pop_spec : forall h i k h' r,
   /\ match r with
      | Err _ => h' = h
      | Ok o => exists ty l d ix l',
-         view h i = Some (ty, l, d) /\ py_pop l ix = Ok (o, l')
+         view h i = Some (ty, l, d) /\ py_pop l ix = Ok (o, l') /\ pop_key_rel k l d ix
          /\ view h' i = Some (ty, l', od_of (enum_names 0 l'))
      end.
 Proof.
@@ -618,7 +626,12 @@ Proof.
     + neq_dec lo' i; [congruence|]. neq_dec lo' n; [lia|]. neq_dec lo' lo; [congruence|]. exact C.
     + neq_dec di' i; [congruence|]. neq_dec di' n; [lia|]. neq_dec di' lo; [congruence|]. exact D.
   - exists ty, l, d, ix, l'. split; [unfold view; rewrite Gi, Gl, Gd; reflexivity|].
-    split; [exact Ep|]. apply view_nth. exists lo, n. rewrite !N. repeat split.
+    split; [exact Ep|]. split.
+    { destruct k as [|j|nm]; cbn in Eix |- *.
+      - inversion Eix; reflexivity.
+      - inversion Eix; reflexivity.
+      - rewrite K_index_by_name_idx0 in Eix. destruct (od_get d nm) as [ix0|]; [rewrite K_npop_name_lookup in Eix|]; inversion Eix; reflexivity. }
+    apply view_nth. exists lo, n. rewrite !N. repeat split.
     + rewrite Nat.eqb_refl. reflexivity.
     + neq_dec lo i; [congruence|]. neq_dec lo n; [lia|]. rewrite Nat.eqb_refl. reflexivity.
     + neq_dec n i; [lia|]. rewrite Nat.eqb_refl. reflexivity.
@@ -780,4 +793,324 @@ Proof.
   exists ty, l, d, news, lo', di'. repeat split; auto.
   - unfold get_inst. rewrite (proj2 (nth_error_None h c)) by lia. reflexivity.
   - apply get_inst_nth; exact G.
+Qed.
+
+(* ------------------------------------------------------------------ *)
+(* list.pop(index): Python semantics incl. negative and out-of-range indices *)
+Lemma py_pop_ok : forall {A} (l : list A) i o l',
+  py_pop l i = Ok (o, l') ->
+  exists l1 l2, l = l1 ++ o :: l2 /\ l' = l1 ++ l2 /\ (i = zlen l1 \/ i = - zlen l2 - 1).
+Proof.
+  intros A l i o l' E. unfold py_pop in E.
+  set (n := zlen l) in *. set (j := if i <? 0 then i + n else i) in *.
+  destruct ((j <? 0) || (n <=? j)) eqn:R; [discriminate|].
+  apply orb_false_iff in R. destruct R as [R1 R2]. apply Z.ltb_ge in R1. apply Z.leb_gt in R2.
+  destruct (nth_error l (Z.to_nat j)) as [a|] eqn:En; [|discriminate].
+  inversion E; subst a l'. clear E.
+  destruct (nth_error_split l (Z.to_nat j) En) as (l1 & l2 & El & Len).
+  exists l1, l2. split; [exact El|]. split.
+  - assert (F1 : firstn (length l1) (l1 ++ o :: l2) = l1).
+    { rewrite firstn_app, Nat.sub_diag, firstn_all. cbn. apply app_nil_r. }
+    assert (F2 : skipn (S (length l1)) (l1 ++ o :: l2) = l2).
+    { clear. induction l1 as [|a t IH]; [reflexivity | exact IH]. }
+    assert (G : firstn (length l1) l ++ skipn (S (length l1)) l = l1 ++ l2)
+      by (rewrite El, F1, F2; reflexivity).
+    rewrite <- Len. exact G.
+  - assert (Hn : n = zlen l1 + 1 + zlen l2).
+    { unfold n, zlen. rewrite El, app_length. cbn [length]. lia. }
+    assert (Hj : j = zlen l1) by (unfold zlen; lia).
+    unfold j in Hj. destruct (i <? 0); [right | left]; lia.
+Qed.
+
+Lemma py_pop_err : forall {A} (l : list A) i e,
+  py_pop l i = Err e -> e = IndexError /\ (i < - zlen l \/ zlen l <= i).
+Proof.
+  intros A l i e E. unfold py_pop in E.
+  set (n := zlen l) in *. destruct (i <? 0) eqn:Neg.
+  - apply Z.ltb_lt in Neg. destruct ((i + n <? 0) || (n <=? i + n)) eqn:R.
+    + inversion E. split; [reflexivity|]. apply orb_true_iff in R. destruct R as [R|R];
+        [apply Z.ltb_lt in R | apply Z.leb_le in R]; lia.
+    + apply orb_false_iff in R. destruct R as [R1 R2]. apply Z.ltb_ge in R1.
+      destruct (nth_error l (Z.to_nat (i + n))) eqn:En; [discriminate|].
+      apply nth_error_None in En. unfold n, zlen in *. lia.
+  - apply Z.ltb_ge in Neg. destruct ((i <? 0) || (n <=? i)) eqn:R.
+    + inversion E. split; [reflexivity|]. apply orb_true_iff in R. destruct R as [R|R];
+        [apply Z.ltb_lt in R | apply Z.leb_le in R]; lia.
+    + apply orb_false_iff in R. destruct R as [R1 R2]. apply Z.leb_gt in R2.
+      destruct (nth_error l (Z.to_nat i)) eqn:En; [discriminate|].
+      apply nth_error_None in En. unfold n, zlen in *. lia.
+Qed.
+
+Lemma od_get_update : forall {V} (B d : od V) n v,
+  od_get (od_update d B) n = Some v -> In (n, v) B \/ od_get d n = Some v.
+Proof.
+  induction B as [|[k x] t IH]; intros d n v E; [right; exact E|].
+  rewrite od_update_cons in E. destruct (IH _ _ _ E) as [X|X]; [left; right; exact X|].
+  destruct (Z.eq_dec k n) as [->|NE].
+  - rewrite od_get_set_same in X. inversion X; subst. left; left; reflexivity.
+  - rewrite od_get_set_other in X by exact NE. right; exact X.
+Qed.
+
+Lemma od_mem_update : forall {V} (B d : od V) n,
+  In n (map fst B) -> od_mem (od_update d B) n = true.
+Proof.
+  intros V B. assert (G : forall (B : od V) d n, od_mem d n = true \/ In n (map fst B) -> od_mem (od_update d B) n = true).
+  { induction B0 as [|[k x] t IH]; intros d n [M|I]; try exact M; try (destruct I; fail);
+      rewrite od_update_cons; apply IH.
+    - left. rewrite od_mem_set, M. apply orb_true_r.
+    - cbn in I. destruct I as [->|I]; [left; rewrite od_mem_set, Z.eqb_refl; reflexivity | right; exact I]. }
+  intros d n I. apply G. right; exact I.
+Qed.
+
+Lemma enum_names_in : forall l s n ix,
+  In (n, ix) (enum_names s l) -> exists k o, ix = s + Z.of_nat k /\ nth_error l k = Some o /\ oname o = n.
+Proof.
+  induction l as [|a t IH]; intros s n ix I; [destruct I|].
+  rewrite enum_names_cons in I. destruct I as [I|I].
+  - inversion I; subst. exists 0%nat, a. repeat split. lia.
+  - destruct (IH _ _ _ I) as (k & o & E1 & E2 & E3). exists (S k), o. repeat split; auto. lia.
+Qed.
+
+(* C20_pop *)
+Theorem pop_all_histories : forall ops i k h' r,
+  noc_pop (run [] ops) i k = (h', r) ->
+  let h := run [] ops in
+  (forall j v, j <> i -> view h j = Some v -> view h' j = Some v)
+  /\ match r with
+     | Ok o => exists ty l d l1 l2,
+         view h i = Some (ty, l, d) /\ l = l1 ++ o :: l2
+         /\ view h' i = Some (ty, l1 ++ l2, od_of (enum_names 0 (l1 ++ l2)))
+         /\ match k with
+            | PNone => l2 = []
+            | PIdx ix => ix = zlen l1 \/ ix = - zlen l2 - 1
+            | PName n => oname o = n
+            end
+     | Err e => h' = h /\ forall ty l d, view h i = Some (ty, l, d) ->
+         match k with
+         | PNone => l = [] /\ e = IndexError
+         | PIdx ix => (ix < - zlen l \/ zlen l <= ix) /\ e = IndexError
+         | PName n => ~ In n (names l) /\ e = KeyError
+         end
+     end.
+Proof.
+  intros ops i k h' r E h. pose proof (run_inv ops [] hinv_nil) as HI. fold h in HI, E.
+  destruct (noc_pop_spec _ _ _ _ _ HI E) as (HI' & Fr & R).
+  split; [exact Fr|]. destruct r as [o|e].
+  - destruct R as (ty & l & d & ix & l' & V & Ep & Rel & V').
+    destruct (py_pop_ok _ _ _ _ Ep) as (l1 & l2 & El & El' & Hix). subst l'.
+    exists ty, l, d, l1, l2. split; [exact V|]. split; [exact El|]. split; [exact V'|].
+    assert (Hn : zlen l = zlen l1 + 1 + zlen l2) by (unfold zlen; rewrite El, app_length; cbn [length]; lia).
+    assert (P1 : 0 <= zlen l1) by (unfold zlen; lia). assert (P2 : 0 <= zlen l2) by (unfold zlen; lia).
+    destruct k as [|j|n]; cbn in Rel.
+    + assert (zlen l2 = 0) by lia. destruct l2; [reflexivity | unfold zlen in *; cbn in *; lia].
+    + subst ix. exact Hix.
+    + rewrite (hinv_view _ _ _ _ _ HI V) in Rel.
+      destruct (od_get_update _ _ _ _ Rel) as [I|I]; [|discriminate].
+      destruct (enum_names_in _ _ _ _ I) as (kk & o' & E1 & E2 & E3).
+      assert (kk = length l1) by (unfold zlen in *; lia). subst kk.
+      rewrite El, nth_error_app2, Nat.sub_diag in E2 by lia. inversion E2; subst o'. exact E3.
+  - subst h'. split; [reflexivity|]. intros ty l d V.
+    pose proof (hinv_view _ _ _ _ _ HI V) as Hd.
+    apply view_nth in V. destruct V as (lo & di & A & B & C).
+    apply get_inst_nth in A. apply get_list_nth in B. apply get_dict_nth in C.
+    unfold noc_pop in E. rewrite A, B, C in E.
+    assert (Fin : forall ix o l', py_pop l ix = Ok (o, l') ->
+              (let (h2, dn) := alloc (put h lo (CList l')) (CDict (create_idx l' cidx_start_default)) in
+               (put h2 i (CInst ty lo dn), Ok o)) = (h, Err e) -> False).
+    { intros ix o l' _ X. unfold alloc in X. inversion X. }
+    destruct k as [|j|n].
+    + destruct (py_pop l (pop_default_index (zlen l))) as [[o l']|e'] eqn:Ep; [exfalso; eapply Fin; eauto|].
+      inversion E; subst e'. destruct (py_pop_err _ _ _ Ep) as [He R]. rewrite K_pop_default_index in R.
+      split; [|exact He]. destruct l; [reflexivity | unfold zlen in R; cbn [length] in R; lia].
+    + destruct (py_pop l j) as [[o l']|e'] eqn:Ep; [exfalso; eapply Fin; eauto|].
+      inversion E; subst e'. destruct (py_pop_err _ _ _ Ep) as [He R]. split; assumption.
+    + rewrite K_index_by_name_idx0 in E. destruct (od_get d n) as [ix|] eqn:Eg.
+      * exfalso. rewrite K_npop_name_lookup in E.
+        destruct (py_pop l ix) as [[o l']|e'] eqn:Ep; [eapply Fin; eauto|].
+        destruct (py_pop_err _ _ _ Ep) as [_ R]. rewrite Hd in Eg.
+        destruct (od_get_update _ _ _ _ Eg) as [I|I]; [|discriminate].
+        destruct (enum_names_in _ _ _ _ I) as (kk & o' & E1 & E2 & _).
+        assert (kk < length l)%nat by (apply nth_error_Some; congruence). unfold zlen in R. lia.
+      * inversion E. split; [|reflexivity]. intros I.
+        assert (M : od_mem d n = true).
+        { rewrite Hd. apply od_mem_update. rewrite enum_names_keys. exact I. }
+        unfold od_mem in M. rewrite Eg in M. discriminate.
+Qed.
+
+(* ------------------------------------------------------------------ *)
+(* copy(): the new instance has its own list and index cells *)
+Theorem copy_fresh : forall ops i h' c,
+  noc_copy (run [] ops) i = (h', Ok c) ->
+  let h := run [] ops in
+  firstn (length h) h' = h
+  /\ exists ty l d lo' di',
+       view h i = Some (ty, l, d) /\ view h' c = Some (ty, l, d)
+       /\ get_inst h c = None /\ get_inst h' c = Some (ty, lo', di')
+       /\ (forall j tyj loj dij, get_inst h j = Some (tyj, loj, dij) -> loj <> lo' /\ dij <> di').
+Proof.
+  intros ops i h' c E h. pose proof (run_inv ops [] hinv_nil) as HI. fold h in HI, E.
+  pose proof (noc_copy_spec _ _ _ _ HI E) as (ty & l & d & V & Eh & Ec & HI'). cbn in *.
+  split; [rewrite Eh, firstn_app, Nat.sub_diag, firstn_all; cbn; apply app_nil_r|].
+  exists ty, l, d, (length h), (S (length h)). split; [exact V|].
+  assert (Nc : nth_error h' c = Some (CInst ty (length h) (S (length h)))).
+  { rewrite Eh, Ec. rewrite nth_error_app2 by lia.
+    match goal with |- nth_error _ ?k = _ => replace k with 2%nat by lia end. reflexivity. }
+  split.
+  - apply view_nth. exists (length h), (S (length h)). split; [exact Nc|]. rewrite Eh. split.
+    + rewrite nth_error_app2, Nat.sub_diag by lia. reflexivity.
+    + rewrite nth_error_app2 by lia.
+      match goal with |- nth_error _ ?k = _ => replace k with 1%nat by lia end. reflexivity.
+  - split; [unfold get_inst; rewrite (proj2 (nth_error_None h c)) by lia; reflexivity|].
+    split; [apply get_inst_nth; exact Nc|].
+    intros j tyj loj dij G. apply get_inst_nth in G. destruct (proj1 HI _ _ _ _ G) as (l0 & A & B).
+    assert (loj < length h)%nat by (apply nth_error_Some; congruence).
+    assert (dij < length h)%nat by (apply nth_error_Some; congruence). lia.
+Qed.
+
+(* ------------------------------------------------------------------ *)
+(* the element type check of add: a collection only ever holds instances of
+   (subclasses of) its obj_type *)
+Definition typed_heap (h : heap) : Prop :=
+  forall i ty lo di l, nth_error h i = Some (CInst ty lo di) -> nth_error h lo = Some (CList l) ->
+    Forall (fun o => issub (ocls o) ty = true) l.
+
+Lemma issub_trans : forall a b c, issub a b = true -> issub b c = true -> issub a c = true.
+Proof. intros [] [] []; cbn; auto. Qed.
+
+Lemma oc_add_objs_typed : forall h ty x news,
+  typed_heap h -> oc_add_objs h ty x = Ok news -> Forall (fun o => issub (ocls o) ty = true) news.
+Proof.
+  intros h ty [o|s|j] news T E; cbn in E.
+  - destruct (issub (ocls o) ty) eqn:I; inversion E. constructor; [exact I | constructor].
+  - destruct s as [|o0 t]; [discriminate|].
+    destruct (forallb (fun o => issub (ocls o) (ocls o0)) (o0 :: t)) eqn:F; [|discriminate].
+    destruct (issub (ocls o0) ty) eqn:I; inversion E; subst news.
+    apply Forall_forall. intros o Ho. rewrite forallb_forall in F.
+    eapply issub_trans; [apply F; exact Ho | exact I].
+  - destruct (get_inst h j) as [[[tyj loj] dij]|] eqn:G; [|discriminate].
+    destruct (get_list h loj) as [lj|] eqn:Gl; [|discriminate].
+    destruct (issub tyj ty) eqn:I; inversion E; subst news.
+    apply get_inst_nth in G. apply get_list_nth in Gl.
+    pose proof (T _ _ _ _ _ G Gl) as Tj. apply Forall_forall. intros o Ho.
+    rewrite Forall_forall in Tj. eapply issub_trans; [apply Tj; exact Ho | exact I].
+Qed.
+
+Lemma typed_alloc3 : forall h ty l d,
+  hinv h -> typed_heap h -> Forall (fun o => issub (ocls o) ty = true) l ->
+  typed_heap (h ++ [CList l; CDict d; CInst ty (length h) (S (length h))]).
+Proof.
+  intros h ty l d [W _] T Tl. set (n := length h).
+  assert (N : forall k, nth_error (h ++ [CList l; CDict d; CInst ty n (S n)]) k
+     = if Nat.eqb k n then Some (CList l)
+       else if Nat.eqb k (S n) then Some (CDict d)
+       else if Nat.eqb k (S (S n)) then Some (CInst ty n (S n)) else nth_error h k).
+  { intros k. change [CList l; CDict d; CInst ty n (S n)] with ([CList l] ++ [CDict d] ++ [CInst ty n (S n)]).
+    rewrite !app_assoc. rewrite !nth_error_snoc, !app_length. cbn [length]. fold n.
+    replace (n + 1 + 1)%nat with (S (S n)) by lia. replace (n + 1)%nat with (S n) by lia.
+    neq_dec k (S (S n)).
+    - neq_dec (S (S n)) n; [lia|]. neq_dec (S (S n)) (S n); [lia|]. reflexivity.
+    - neq_dec k (S n); [neq_dec (S n) n; [lia|reflexivity]|]. reflexivity. }
+  intros k ty' lo' di' l' Ek El. rewrite N in Ek.
+  neq_dec k n; [discriminate|]. neq_dec k (S n); [discriminate|]. neq_dec k (S (S n)).
+  - inversion Ek; subst. rewrite N, Nat.eqb_refl in El. inversion El; subst. exact Tl.
+  - destruct (W _ _ _ _ Ek) as (l0 & A & _).
+    assert (lo' < n)%nat by (apply nth_error_Some; congruence).
+    rewrite N in El. neq_dec lo' n; [lia|]. neq_dec lo' (S n); [lia|]. neq_dec lo' (S (S n)); [lia|].
+    eapply T; eauto.
+Qed.
+
+Lemma typed_write : forall h i ty lo di l0 d0 l1 d1,
+  hinv h -> typed_heap h -> nth_error h i = Some (CInst ty lo di) ->
+  nth_error h lo = Some (CList l0) -> nth_error h di = Some (CDict d0) ->
+  Forall (fun o => issub (ocls o) ty = true) l1 ->
+  typed_heap (put (put h lo (CList l1)) di (CDict d1)).
+Proof.
+  intros h i ty lo di l0 d0 l1 d1 [W Sp] T Hi Hlo Hdi Tl.
+  assert (N : forall k, nth_error (put (put h lo (CList l1)) di (CDict d1)) k
+     = if Nat.eqb k di then Some (CDict d1) else if Nat.eqb k lo then Some (CList l1) else nth_error h k).
+  { intros k. unfold put. rewrite !nth_error_set_nth. neq_dec k di.
+    - neq_dec di lo; [congruence|]. rewrite Hdi. reflexivity.
+    - neq_dec k lo; [rewrite Hlo|]; reflexivity. }
+  intros k ty' lo' di' l' Ek El. rewrite N in Ek.
+  neq_dec k di; [discriminate|]. neq_dec k lo; [discriminate|].
+  rewrite N in El. destruct (Nat.eq_dec k i) as [->|NE].
+  - rewrite Hi in Ek. inversion Ek; subst. neq_dec lo' di'; [congruence|].
+    rewrite Nat.eqb_refl in El. inversion El; subst. exact Tl.
+  - destruct (Sp k i _ _ _ _ _ _ Ek Hi NE) as [X Y]. destruct (W _ _ _ _ Ek) as (l2 & A & _).
+    neq_dec lo' di; [congruence|]. neq_dec lo' lo; [congruence|]. eapply T; eauto.
+Qed.
+
+Lemma py_pop_forall : forall {A} (P : A -> Prop) (l : list A) i o l',
+  py_pop l i = Ok (o, l') -> Forall P l -> Forall P l'.
+Proof.
+  intros A P l i o l' E F. destruct (py_pop_ok _ _ _ _ E) as (l1 & l2 & El & El' & _). subst.
+  apply Forall_app in F. destruct F as [F1 F2]. inversion F2; subst. apply Forall_app. auto.
+Qed.
+
+Lemma step_typed : forall h o, hinv h -> typed_heap h -> typed_heap (fst (step h o)).
+Proof.
+  intros h [ty|i x|i k|i x] HI T; cbn [step].
+  - unfold noc_new, alloc. cbn. rewrite !app_length. cbn [length].
+    rewrite <- !app_assoc. cbn [app].
+    replace (length h + 1)%nat with (S (length h)) by lia.
+    apply typed_alloc3; auto.
+  - destruct (noc_add h i x) as [h' [u|e]] eqn:E; cbn.
+    + destruct (noc_add_spec _ _ _ _ _ HI E) as (_ & _ & _ & ty & lo & di & l & news & A & B & C & D & _).
+      destruct (proj1 HI _ _ _ _ A) as (l0 & B0 & C0). rewrite B in B0; inversion B0; subst l0.
+      rewrite D. eapply typed_write; eauto. apply Forall_app. split; [eapply T; eauto|].
+      eapply oc_add_objs_typed; eauto.
+    + rewrite (add_failure_atomic _ _ _ _ _ E). exact T.
+  - destruct (noc_pop h i k) as [h' [o|e]] eqn:E; cbn; [|rewrite (pop_failure_atomic _ _ _ _ _ E); exact T].
+    unfold noc_pop in E.
+    destruct (get_inst h i) as [[[ty lo] di]|] eqn:Ei; [|discriminate].
+    destruct (get_list h lo) as [l|] eqn:El; [|discriminate].
+    destruct (get_dict h di) as [d|] eqn:Ed; [|discriminate].
+    match type of E with (match ?ixe with _ => _ end) = _ => destruct ixe as [ix|e'] end; [|discriminate].
+    destruct (py_pop l ix) as [[o' l']|e'] eqn:Ep; [|discriminate].
+    unfold alloc, put in E. rewrite length_set_nth in E. inversion E; subst h' o'. clear E.
+    apply get_inst_nth in Ei. apply get_list_nth in El. apply get_dict_nth in Ed.
+    destruct HI as [W Sp]. set (n := length h).
+    assert (B : forall a c, nth_error h a = Some c -> (a < n)%nat)
+      by (intros a c X; apply nth_error_Some; congruence).
+    pose proof (B _ _ Ei). pose proof (B _ _ El).
+    set (dn := create_idx l' cidx_start_default).
+    assert (N : forall a, nth_error (set_nth (set_nth h lo (CList l') ++ [CDict dn]) i (CInst ty lo n)) a
+       = if Nat.eqb a i then Some (CInst ty lo n)
+         else if Nat.eqb a n then Some (CDict dn)
+         else if Nat.eqb a lo then Some (CList l') else nth_error h a).
+    { intros a. rewrite nth_error_set_nth, !nth_error_snoc, length_set_nth, !nth_error_set_nth. fold n.
+      neq_dec a i.
+      - neq_dec i n; [lia|]. neq_dec i lo; [congruence|]. rewrite Ei. reflexivity.
+      - neq_dec a n; [reflexivity|]. neq_dec a lo; [rewrite El|]; reflexivity. }
+    intros a ty' lo' di' l2 Ea El2. rewrite N in Ea. rewrite N in El2. neq_dec a i.
+    + inversion Ea; subst. neq_dec lo' i; [congruence|]. neq_dec lo' n; [lia|].
+      rewrite Nat.eqb_refl in El2. inversion El2; subst.
+      eapply py_pop_forall; [exact Ep | eapply T; eauto].
+    + neq_dec a n; [discriminate|]. neq_dec a lo; [discriminate|].
+      destruct (Sp a i _ _ _ _ _ _ Ea Ei ltac:(assumption)) as [X Y].
+      destruct (W _ _ _ _ Ea) as (l3 & A3 & _). pose proof (B _ _ A3).
+      neq_dec lo' i; [congruence|]. neq_dec lo' n; [lia|]. neq_dec lo' lo; [congruence|]. eapply T; eauto.
+  - unfold noc_plus. destruct (noc_copy h i) as [h1 [c|e]] eqn:Ec.
+    + pose proof (noc_copy_spec _ _ _ _ HI Ec) as (ty & l & d & V & Eh1 & Ecc & HI1). cbn in *.
+      assert (T1 : typed_heap h1).
+      { rewrite Eh1. apply typed_alloc3; auto. apply view_nth in V. destruct V as (lo & di & A & B & _).
+        eapply T; eauto. }
+      destruct (noc_add h1 c x) as [h2 [u|e]] eqn:Ea; cbn.
+      * destruct (noc_add_spec _ _ _ _ _ HI1 Ea) as (_ & _ & _ & ty2 & lo & di & l2 & news & A & B & C & D & _).
+        destruct (proj1 HI1 _ _ _ _ A) as (l0 & B0 & C0). rewrite B in B0; inversion B0; subst l0.
+        rewrite D. eapply typed_write; eauto. apply Forall_app. split; [eapply T1; eauto|].
+        eapply oc_add_objs_typed; eauto.
+      * rewrite (add_failure_atomic _ _ _ _ _ Ea). exact T1.
+    + pose proof (noc_copy_spec _ _ _ _ HI Ec) as X. cbn in X. subst h1. cbn. exact T.
+Qed.
+
+Theorem typed_all_histories : forall ops i ty l d,
+  view (run [] ops) i = Some (ty, l, d) -> Forall (fun o => issub (ocls o) ty = true) l.
+Proof.
+  intros ops i ty l d V.
+  assert (G : forall ops h, hinv h -> typed_heap h -> typed_heap (run h ops)).
+  { induction ops0 as [|o t IH]; intros h HI T; [exact T|]. cbn. apply IH; [apply step_inv | apply step_typed]; assumption. }
+  assert (T0 : typed_heap []) by (intros k; intros; destruct k; discriminate).
+  apply view_nth in V. destruct V as (lo & di & A & B & _).
+  eapply (G ops [] hinv_nil T0); eauto.
 Qed.
